@@ -139,7 +139,19 @@ pub fn install_panic_hook() {
             .location()
             .map(|l| format!("{}:{}", l.file(), l.line()))
             .unwrap_or_default();
-        LAST_PANIC.with(|p| *p.borrow_mut() = Some(format!("{msg} @ {loc}")));
+        // keep the FIRST panic of a case (tokio re-panics with a generic message
+        // when a task panicked); later ones are appended for context
+        LAST_PANIC.with(|p| {
+            let mut g = p.borrow_mut();
+            match g.as_mut() {
+                None => *g = Some(format!("{msg} @ {loc}")),
+                Some(prev) => {
+                    if prev.len() < 600 {
+                        prev.push_str(&format!(" | then: {msg}"));
+                    }
+                }
+            }
+        });
         if verbose {
             default(info);
         }
